@@ -72,6 +72,7 @@ def gen(rng, tier, i):
     oip, oport = sc.origin_ip(), sc.port()
     host = oip
     expect = "fail"
+    badbnd = False
     upstream_script = None
     # connector + rules
     if oc in ("ok", "refused", "unreachable", "blackhole", "nxdomain", "bind", "badcmd", "badcreds", "udp-assoc-timeout", "http-unsupported"):
@@ -154,6 +155,12 @@ def gen(rng, tier, i):
         elif oc == "up-socks-ok":
             expect = "ok"
             srv["default_ops"] = sc.upstream_handshake(ci) + tail
+            if lk in ("socks5", "http", "https") and rng.random() < 0.3:
+                # a UDP association the upstream grants with a relay address the proxy cannot use (a name; an all-zero address
+                # would mean "where you reached me" and is usable): no upstream path exists, the client must be told so
+                badbnd = True
+                expect = "fail"
+                srv["default_ops"] = sc.upstream_handshake(ci, reply_atyp=3) + tail
         elif oc == "up-socks-no":
             rep = rng.choice([1, 2, 3, 4, 5, 8, 255])
             srv["default_ops"] = [op("recv_n", n=3, label="upgreet"), send(b"\x05\x00"), op("recv_socks5_reply", label="upreq"),
@@ -182,6 +189,8 @@ def gen(rng, tier, i):
     udp = oc in ("udp-on-tcp-only", "udp-assoc-timeout")
     if oc in ("up-http-403", "up-http-garbage", "up-http-closes", "up-refused") and lk in ("socks5", "http", "https", "quic") and rng.random() < 0.35:
         udp = True     # a UDP tunnel the upstream proxy refuses is refused just as a TCP one
+    if badbnd:
+        udp = True
     hs, proto = sc.client_handshake(li, host if not (udp and socks_l) else "0.0.0.0", oport if not (udp and socks_l) else 0, variant=variant, creds=creds, udp=udp)
     if oc == "http-unsupported":
         # a request the HTTP-style listeners do not support: another method, or CONNECT for an unknown Proxy-Protocol
